@@ -1,11 +1,27 @@
 from vp.api import Q, Mutant
 TITLE = "The zone allocator is a correct best-fit allocator"
 ZM = "parsec/utils/zone_malloc.c"
-OUTSIDE = []
-ASSUMPTIONS = []
-BOUNDS = {}
-CLAIMED = False
-MANIFEST = {}
+OUTSIDE = ["zones of more than U units and histories of more than K symbolic operations from a given start state",
+           "states that differ from the enumerated start states only in the order of equal-sized free segments inside an index list beyond the two enumerated orders, "
+           "in the number of retired index nodes, or in stale table entries inside segments (the start states are built by the real code through a canonical prefix)",
+           "sizes >= 2^31 units (int nb_units), zone_free of an address that is not a live allocation (error message path), allocation failure of the index nodes",
+           "concurrent callers (every entry point takes the zone lock; only 'lock released on every path' is checked)",
+           "the red-black tree and the LIFO themselves: replaced by functional models of the contracts established by C36 and C30 (assume/guarantee)"]
+ASSUMPTIONS = ["rbmodel.h: parsec_rbtree_* replaced by an array model implementing exactly the contract C36 proves for the real tree (node set updated exactly, find/find_or_larger = sorted key set, "
+               "update_node returns EXISTS iff another node has the key and then changes nothing); the model also asserts that zone_malloc.c respects the tree's caller contract",
+               "lifomodel.h: parsec_lifo_* replaced by a sequential stack model (the real pop goes through a union with __int128, which makes CBMC lose the popped node's identity)",
+               "malloc stub: zone header, segment table and index nodes are static typed objects handed out by a malloc stub; the real object system (parsec_object.c, parsec_list.c) constructs them",
+               "start states: zone_malloc_init followed by a concrete prefix run by the real code (fill the zone with NSEG allocations, free some): every segmentation of U units without two adjacent free segments is enumerated",
+               "caller contract: zone_free is called once with the address of a live allocation"]
+BOUNDS = {"quick": {"units": 3, "operations": "2 symbolic from init; 1 symbolic from each of the 13 segment layouts (x2 free orders)", "size": "any 0..(U+1)*16 bytes"},
+          "thorough": {"units": "3 and 4", "operations": "2 from init; 1 from every layout (U=4: 34 layouts)", "size": "any 0..(U+1)*16 bytes"}}
+CLAIMED = True
+MANIFEST = {
+ "engine": "cbmc-src",
+ "text": "Bounded model checking of the real zone_malloc.c (real list.h and object system; red-black tree and LIFO replaced by functional models of the contracts that C36 and C30 establish).  For EVERY segmentation of a 3-unit zone into live and free segments (13 layouts, both orders of freeing; 4 units: two layouts in the quick tier, all 34 in the thorough tier), reached by running the real code on a concrete prefix, ONE symbolic operation is executed: zone_malloc of any byte size 0..(U+1)*16 or zone_free of any live block.  The solver shows: a returned address lies inside the zone, is unit aligned and overlaps no live allocation; NULL is returned only if the size is 0 or no free run of enough units exists; the block is carved from the start of a SMALLEST free run that fits (best fit); afterwards the segment table equals a ghost unit map, no two adjacent free segments exist (free coalesces with both neighbours), back pointers are right, the free-size index contains exactly the free run lengths with non-empty lists, zone_in_use equals the sum of live allocations, the lock is released, and zone_malloc.c respects the tree's caller contract.  Thorough tier adds two symbolic operations from zone_malloc_init.",
+ "note": "Single steps from enumerated reachable layouts, not a fully symbolic inductive pre-state (see NOT_APPLICABLE.md: list code reaches the segment table through list-item pointers, CBMC then needs byte-level updates of the whole table; out of memory at 3 units).  Tree and LIFO are models (assume/guarantee with C36/C30); zone header, table and index nodes come from a malloc stub as static typed objects; sizes >= 2^31 units, invalid frees and concurrency outside.",
+ "technique": "CBMC bounded symbolic execution of the real C unit from enumerated reachable states (concrete prefix folded by symbolic execution, one symbolic operation) + SAT (cadical); ghost unit map as oracle; functional models for the tree and the LIFO",
+}
 OBJ = ["repo:parsec/class/parsec_object.c", "repo:parsec/class/parsec_list.c"]
 
 
@@ -53,7 +69,8 @@ def queries(ctx):
                 defs.append("W_FAIL=1")
                 if free:
                     defs.append("W_EXACT=1")
-                if any(s >= 2 for s in free):
+                # a split happens iff some request nb < s is served (best fit) by a run of size s
+                if any(all(not (nb <= t < s) for t in free) for s in free for nb in range(1, s)):
                     defs.append("W_SPLIT=1")
             if has_f and k == 1:
                 defs.append("W_FREE=1")
@@ -62,17 +79,47 @@ def queries(ctx):
                 if any(lay[i][1] and 0 < i < n - 1 and not lay[i - 1][1] and not lay[i + 1][1] for i in range(n)):
                     defs.append("W_MERGE2=1")
         qs.append(Q(name, ["zh.c"] + OBJ, defs=defs, unwind=u + 3, unwindset=["expand_array.0:11"],
-                    units=[ZM, "parsec/utils/zone_malloc.h"], object_bits=10, timeout=timeout, tiers=tiers, mem_gb=8, info={}))
-    q("init_u3_MM", 3, (0, 0))
-    q("init_u3_MF", 3, (0, 1))
+                    units=[ZM, "parsec/utils/zone_malloc.h"], object_bits=10, timeout=timeout, tiers=tiers, mem_gb=8,
+                    info={"symbolic": ["malloc: byte size 0..%d" % ((u + 1) * 16), "free: which live block", "everything the operation reads (table, lists, index) is the state built by the real code"],
+                          "enumerated": ["units U=%d" % u, "start state: %s" % ("zone_malloc_init" if lay is None else "layout %s (F=live, e=free, sizes in units), frees in %s address order" % (lname(lay), "decreasing" if forder else "increasing")),
+                                         "operation kinds: %s" % ",".join("free" if o else "malloc" for o in ops)],
+                          "stubs": ["parsec_rbtree_* = rbmodel.h (contract of C36)", "parsec_lifo_* = lifomodel.h (sequential stack, contract of C30)", "malloc -> static typed objects", "parsec_output_verbose (empty)"],
+                          "bounds": {"units": u, "symbolic operations": k, "unit size": 16},
+                          "functions": ["zone_malloc_init", "zone_malloc", "zone_free", "zone_in_use", "allocate_chunk_list", "SEGMENT_AT_TID"]}))
+    T = ("thorough",)
+    # two symbolic operations from zone_malloc_init (every 2-step history of a fresh zone)
+    q("init_u3_MM", 3, (0, 0), tiers=T, timeout=3400)
+    q("init_u3_MF", 3, (0, 1), tiers=T, timeout=3400)
+    # one symbolic operation from EVERY segment layout of 3 units
     for lay in layouts(3):
         nfree = sum(1 for s, f in lay if not f)
         for fo in ((0, 1) if nfree >= 2 else (0,)):
             q("u3_%s_o%d_M" % (lname(lay), fo), 3, (0,), lay, fo)
             if any(f for s, f in lay):
                 q("u3_%s_o%d_F" % (lname(lay), fo), 3, (1,), lay, fo)
+    # 4 units: two different free sizes exist only from 4 units on (best fit must pick the smaller run)
+    quick4 = [[(1, 0), (1, 1), (2, 0)], [(2, 0), (1, 1), (1, 0)]]
+    for lay in layouts(4):
+        nfree = sum(1 for s, f in lay if not f)
+        tiers = ("quick", "thorough") if lay in quick4 else T
+        for fo in ((0, 1) if (nfree >= 2 and lay not in quick4) else (0,)):
+            q("u4_%s_o%d_M" % (lname(lay), fo), 4, (0,), lay, fo, tiers=tiers, timeout=3400)
+            if any(f for s, f in lay) and lay not in quick4:
+                q("u4_%s_o%d_F" % (lname(lay), fo), 4, (1,), lay, fo, tiers=T, timeout=3400)
     return qs
 
 
 def mutants(ctx):
-    return []
+    return [
+        Mutant("split_next_back_pointer_not_updated", ZM, "            next_segment->nb_prev -= nb_units;", "", queries=["u3_e2F1_o0_M"]),
+        Mutant("free_merged_size_omits_next", ZM, "    if (NULL != next_segment && next_segment->status == SEGMENT_EMPTY)\n        merged_nb_units += next_segment->nb_units;", "", queries=["u3_e1F1e1_o0_F", "u3_e1F1e1_o1_F"]),
+        Mutant("free_prev_merge_next_back_pointer", ZM, "            next_segment->nb_prev += prev_segment->nb_units;", "", queries=["u3_e1F1F1_o0_F"]),
+        Mutant("malloc_keeps_old_segment_size", ZM, "        /* reduce size of current segment */\n        current_segment->nb_units = nb_units;", "", queries=["u3_e2F1_o0_M", "u3_e3_o0_M"]),
+        Mutant("exact_fit_leaves_empty_index_node", ZM, "    } else if (fl_emptied) {\n        /* No split and the chunk-list is now empty: remove it. */", "    } else if (0) {", queries=["u3_e1F1F1_o0_M", "u3_e3_o0_M"]),
+        Mutant("in_use_counts_segments_not_units", ZM, "            ret += gdata->unit_size * current_segment->nb_units;\n        }\n    }\n    parsec_atomic_unlock(&gdata->lock);\n    return ret;\n}\n\ntypedef struct zone_malloc_rbtree_debug_t",
+               "            ret += gdata->unit_size;\n        }\n    }\n    parsec_atomic_unlock(&gdata->lock);\n    return ret;\n}\n\ntypedef struct zone_malloc_rbtree_debug_t", queries=["u3_F2e1_o0_M", "u3_F1F2_o0_M"]),
+        Mutant("malloc_first_fit_from_larger", ZM, "    fl = (zone_malloc_chunk_list_t*) parsec_rbtree_find_or_larger(&gdata->rbtree, nb_units);",
+               "    fl = (zone_malloc_chunk_list_t*) parsec_rbtree_find_or_larger(&gdata->rbtree, nb_units + 1); if (NULL == fl) fl = (zone_malloc_chunk_list_t*) parsec_rbtree_find(&gdata->rbtree, nb_units);",
+               queries=["u4_e1F1e2_o0_M", "u4_e2F1e1_o0_M"]),
+        Mutant("free_forgets_to_unlock_on_double_merge", ZM, "        parsec_list_nolock_push_front(&reuse_fl->list, &current_segment->super);\n    } else {", "        parsec_list_nolock_push_front(&reuse_fl->list, &current_segment->super);\n        return;\n    } else {", queries=["u3_e1F1e1_o0_F"]),
+    ]
